@@ -1,7 +1,7 @@
 (* The character switch of uriDissectQueryMallocExMm (UriQuery.c), translated from the source, against
    the case split of Model/Query.v (dissect_walk branches on '&' and '='). *)
 From Coq Require Import List NArith Bool Lia String ZifyBool ZifyN.
-From UP Require Import Base.Chars Base.Regex Base.Atoms Generated.SwitchTables Proofs.SwitchRefine.
+From UP Require Import Base.Chars Base.Regex Base.Atoms Generated.SwitchTables Proofs.SwitchBase.
 Import ListNotations.
 Local Open Scope N_scope.
 
